@@ -157,7 +157,7 @@ PROPS = {
     "C01": {
         "claim": "Theorems: the matching table is closed under flow along the edge rules (flow_compat, needs ImplTrans and ImplAntisym); every edge of the graph callGraph builds is an instance of a rule (callGraph_edges); for every oracle and behaviour every executed function receives a full argument list whose members entered the graph at an origin vertex and flowed to the parameter vertex (call_args_flow); together: injection_sound_partial. Every executed function receives supplied or previously returned values whose origin label is compatible with the parameter under the matching table. Tied to the code by trace conformance: the real call graph, requirement order, Dijkstra pop orders, chosen paths, every argument list and the outcome are replayed through the model; the predicate is evaluated on the real trace with provenance ids.",
         "note": "reflect / hclog / user function bodies are modelled (arbitrary behaviours); twin interfaces (finding F14) excluded by hypothesis once proved.",
-        "theorems": ["ArgMapper.C01.flow_compat", "ArgMapper.C01.callGraph_edges", "ArgMapper.C01.call_args_flow", "ArgMapper.C01.initSt_storeOK", "ArgMapper.C01.flow_ruleFlow", "ArgMapper.C01.callGraph_store_origin", "ArgMapper.C01.injection_sound_partial", "ArgMapper.C01.counterexample_twin_interfaces", "ArgMapper.C01.newFunc_keysOK", "ArgMapper.C01.callGraph_no_arg_root", "ArgMapper.C01.stdCtx_funcsOK", "ArgMapper.C01.injection_sound"],
+        "theorems": ["ArgMapper.C01.flow_compat", "ArgMapper.C01.callGraph_edges", "ArgMapper.C01.call_args_flow", "ArgMapper.C01.initSt_storeOK", "ArgMapper.C01.flow_ruleFlow", "ArgMapper.C01.callGraph_store_origin", "ArgMapper.C01.injection_sound_partial", "ArgMapper.C01.counterexample_twin_interfaces", "ArgMapper.C01.newFunc_keysOK", "ArgMapper.C01.callGraph_no_arg_root", "ArgMapper.C01.stdCtx_funcsOK", "ArgMapper.C01.injection_sound", "ArgMapper.C01.memo_from_history", "ArgMapper.C01.no_fabrication_call", "ArgMapper.C01.no_fabrication_hist", "ArgMapper.C01.no_fabrication_hist_shared", "ArgMapper.C01.stdCtx_keysOK", "ArgMapper.C01.hist_memoFull", "ArgMapper.C01.no_fabrication_call_original_false_set", "ArgMapper.C01.no_fabrication_call_original_false_cell", "ArgMapper.C01.no_fabrication_hist_original_false"],
         "facts": {"r5SkipSame": "true", "r6NameTest": "true", "publishAfterUpdate": "true", "trackReaching": "true", "takeValuedNamed": "true", "hopCopies": "true", "memoCopy": "true"},
         "rule": "call: at least one function executed, or an unsatisfied error with a converter present.",
         "runs": {"quick": [fam("call", 600, 0), fam("call", 200, 0, "gens"), fam("hist", 400, 0), fam("redef", 300, 0), fam("call", 30, 0, "twin"), fam("race", 40, 8, "40", bin="harness-race")], "thorough": [fam("call", 100000, 0), fam("call", 20000, 0, "gens"), fam("hist", 30000, 0), fam("redef", 20000, 0), fam("call", 300, 0, "twin"), fam("race", 600, 8, "50", bin="harness-race")]},
@@ -212,7 +212,7 @@ PROPS = {
     },
     "C13": {
         "claim": "Theorems: hopeless_reported (uses the verified DFS model, the edge characterisation and flow_compat), unsat_are_parameters, exact_not_listed, inputs_are_supplied, unsat_before_execution. The unsatisfied-argument error lists the hopeless parameter, only underivable parameters, exactly the supplied values, every supplied converter, and its message mentions each missing argument. Tied to the code by comparing the structured error fields (errors.As) of the real code with the model on scenarios with a hopeless parameter.",
-        "note": "", "theorems": ["ArgMapper.C13.hopeless_reported", "ArgMapper.C13.unsat_before_execution", "ArgMapper.C13.unsat_are_parameters", "ArgMapper.C13.exact_not_listed", "ArgMapper.C13.inputs_are_supplied", "ArgMapper.C13.ruleFlow_iff_lib", "ArgMapper.C13.gaps_classified"], "facts": {"r5SkipSame": "true", "r6NameTest": "true", "publishAfterUpdate": "true", "trackReaching": "true", "takeValuedNamed": "true", "hopCopies": "true", "memoCopy": "true"},
+        "note": "", "theorems": ["ArgMapper.C13.hopeless_reported", "ArgMapper.C13.unsat_before_execution", "ArgMapper.C13.unsat_are_parameters", "ArgMapper.C13.exact_not_listed", "ArgMapper.C13.inputs_are_supplied", "ArgMapper.C13.ruleFlow_iff_lib", "ArgMapper.C13.gaps_classified", "ArgMapper.C13.message_mentions_missing", "ArgMapper.C13.message_mentions_input", "ArgMapper.C13.message_mentions_converter"], "facts": {"r5SkipSame": "true", "r6NameTest": "true", "publishAfterUpdate": "true", "trackReaching": "true", "takeValuedNamed": "true", "hopCopies": "true", "memoCopy": "true"},
         "rule": "call: an unsatisfied error with a converter present, or a function executed.",
         "runs": {"quick": [fam("call", 600, 0, "hopeless"), fam("hist", 400, 0)], "thorough": [fam("call", 50000, 0, "hopeless"), fam("hist", 30000, 0)]},
     },
